@@ -44,6 +44,8 @@ RULE = ("cases = (family, operation + parameters, operand tree of depth 1-3 with
         "lazy fibers as operands of further co-iteration (hoisted and right-nested); operands built before / inside a Metrics "
         "bracket; tuple coordinates of an earlier flatten as input of splits, merges, copies and readers; scalar arguments "
         "plain / Payload / Payload(Payload) / CoordPayload; a fiber as split list; zero / negative steps, empty split lists, "
+        "fibers built with ordered=False / unique=False (stored order rotated); after a read the operand and an untouched twin "
+        "receive the same in-place growth and must answer all shape-dependent queries alike; no instance attribute added; "
         "order-sensitive merge callbacks with 3-way collisions, coordinates 9 / 10 / 100, depth 4; every payload a reader "
         "delivers is a stored payload or a fresh object outside the operand's graph, pairwise distinct. non-trivial = value case with a non-empty operand and follow-ups on both sides, or a read case "
         "on an operand with > 12 objects")
@@ -201,6 +203,14 @@ def _build_fiber(case, tree, depth, fd, level=0):
     kw = {"default": fd}
     if case.get("fshape"):
         kw["shape"] = case["fshape"]
+    uo = case.get("unordered")
+    if uo:                       # Fiber(.., ordered=False[, unique=False]); stored order rotated / reversed
+        kw["ordered"] = False
+        if uo == "nonunique":
+            kw["unique"] = False
+        if uo != "sorted" and len(tree) > 1:
+            k = 1 + (level % (len(tree) - 1))
+            tree = tree[k:] + tree[:k]
     if depth == 1:
         f = F([c for c, _ in tree], [conv_leaf(case, v) for _, v in tree], **kw)
     else:
@@ -214,6 +224,13 @@ def _build_fiber(case, tree, depth, fd, level=0):
 
 
 def build(case, key="t"):
+    try:
+        return _build(case, key)
+    except (AssertionError, TypeError, ValueError) as e:
+        raise BuildRejected(type(e).__name__)
+
+
+def _build(case, key="t"):
     """returns (operand, tensor or None, walk roots)"""
     ft = H.ft()
     d = case["d"]
@@ -659,7 +676,7 @@ def run_value(case):
     # the C01 step model is claimed for trees as C01 builds them: the operand side when it is a plain C-format
     # tree, and the result side when the result is a plain copy of such a tree
     plain_a = (not case.get("fmt") and not case.get("pre") and (case["kind"] != "free" or case["d"] == 1) and
-               not any(case.get(k) for k in ("vals", "fshape", "active", "metrics")) and "fdflt" not in case)
+               not any(case.get(k) for k in ("vals", "fshape", "active", "metrics", "unordered")) and "fdflt" not in case)
     plain_b = plain_a and op in ("T.deepcopy", "F.deepcopy", "F.copy")
     steps, invisible = follow_ups(rng, W, sides, roots_all, current, n_steps, case["dflt"], case.get("n", 4),
                                   (hint_a, None), (plain_a, plain_b))
@@ -997,6 +1014,16 @@ def apply_read(op, x, a, others, tensor, case):
     raise ValueError(op)
 
 
+def _attr_names(roots, W):
+    """attribute names (incl. the statistics fields the graph leaves out) of every library object reachable"""
+    out = []
+    for a in W.walk(roots):
+        o = W.keep[a]
+        if isinstance(o, lib()):
+            out.append((a, tuple(sorted(vars(o)))))
+    return out
+
+
 def _fresh_distinct(case, fresh):
     """objects built for absent points: no object handed out for two different deliveries.  A lazy result that is
     iterated twice legitimately re-delivers nothing fresh either (each pass builds its own defaults)."""
@@ -1006,6 +1033,40 @@ def _fresh_distinct(case, fresh):
             return False
         seen.add(id(o))
     return True
+
+
+def _shape_view(x):
+    """shape-dependent public observations of a fiber / tensor (each may raise: the class is the observation)"""
+    ft = H.ft()
+    root = root_fiber(x)
+    out = []
+
+    def obs(th):
+        try:
+            out.append(json.dumps(th(), default=repr))
+        except Exception as e:
+            out.append(H.err_class(e))
+    if root is None:
+        return out
+    for f in _all_fibers(root)[:6]:
+        obs(lambda: f.maxCoord())
+        obs(lambda: f.minCoord())
+        obs(lambda: f.getShape(all_ranks=False))
+        obs(lambda: f.estimateShape())
+        obs(lambda: list(f.getActive()))
+        obs(lambda: len(f))
+    obs(lambda: root.getShape())
+    obs(lambda: [[c, repr(p)] for c, p in root.iterShape()][:40])
+    obs(lambda: [[c, repr(p)] for c, p in root][:40])
+    obs(lambda: H.snapshot(root))
+    obs(lambda: root.countValues())
+    if isinstance(x, ft.Tensor):
+        obs(lambda: x.getShape())
+        obs(lambda: repr(x))
+    else:
+        obs(lambda: repr(root))
+        obs(lambda: H.snapshot(root + 1) if root.payloads and isinstance(root.payloads[0], ft.Payload) else None)
+    return out
 
 
 def _grow(x, case):
@@ -1045,6 +1106,16 @@ def run_read(case):
         x = x.getRoot()
     impl = {}
     args = case.get("args", {})
+    twin = None
+    if case.get("twin"):
+        # an untouched twin built from the same description: after the read, operand and twin receive the same
+        # in-place growth and must then answer every shape-dependent question alike (state a reader may have left
+        # behind anywhere - hidden attributes, caches - shows up here even if the object graph does not have it)
+        tcase = {k: v for k, v in case.items() if not k.startswith("_")}
+        t_op, t_tensor, _ = build(tcase)
+        twin = t_tensor if (isinstance(x, ft.Tensor) and t_tensor is not None) else t_op
+        if isinstance(twin, ft.Tensor) and not isinstance(x, ft.Tensor):
+            twin = twin.getRoot()
     if case.get("remut"):
         # the read once, then the operand is mutated in place (grown past its old extent, element added at an
         # absent point), then the SAME read again (helper objects reused): the second one is the observed one
@@ -1054,6 +1125,9 @@ def run_read(case):
             pass
         case.pop("_delivered", None)
         _grow(x, case)
+        if twin is not None:
+            _grow(twin, case)
+    attrs0 = _attr_names(roots, W)
     g0 = W.walk(roots)
     with bracket(case):
         try:
@@ -1062,10 +1136,17 @@ def run_read(case):
         except Exception as e:
             impl["outcome"] = H.err_class(e)
     g1 = W.walk(roots)
+    attrs1 = _attr_names(roots, W)
     impl["g0"] = rows(g0)
     impl["g1"] = rows(g1)
     side = {}
     case.pop("_cache", None)
+    # a reader adds no instance attribute to any object of the operand (not even one the walker does not track)
+    side["no_instance_attribute_added"] = attrs0 == attrs1
+    if twin is not None:
+        _grow(x, case)
+        _grow(twin, case)
+        side["same_answers_as_untouched_twin_after_growth"] = _shape_view(x) == _shape_view(twin)
     if "_lazy_same" in case:
         side["lazy_result_iterates_identically"] = case.pop("_lazy_same")
     delivered = case.pop("_delivered", None)
@@ -1100,10 +1181,19 @@ def run_read(case):
     return case
 
 
+class BuildRejected(Exception):
+    pass
+
+
 def run(case):
-    if case["fam"] == "value":
-        return run_value(case)
-    return run_read(case)
+    try:
+        if case["fam"] == "value":
+            return run_value(case)
+        return run_read(case)
+    except BuildRejected as e:      # the library refuses to construct this operand (e.g. flatten of an unordered fiber)
+        case["impl"] = {"outcome": "skip:build:" + str(e)}
+        case["side"] = {}
+        return case
 
 
 # ---------------------------------------------------------------------------------------
@@ -1353,6 +1443,10 @@ def gen_wide(tier):
         {"remut": True, "kindset": ["tensor", "root", "free"]},
         {"metrics": "inside", "kindset": ["tensor", "root"]},
         {"metrics": "built_inside", "kindset": ["tensor", "free"]},
+        {"unordered": True, "twin": True, "kindset": ["free", "tensor", "root", "sub"]},    # ordered=False, no declared shape
+        {"unordered": "nonunique", "twin": True, "kindset": ["free", "root"]},
+        {"unordered": "sorted", "twin": True, "fmt": "U", "kindset": ["free", "tensor"]},
+        {"twin": True, "kindset": ["free", "tensor", "root", "sub"]},
         {"pre": {"depth": 0, "levels": 1, "style": "tuple"}, "kindset": ["tensor", "free", "root"]},
         {"pre": {"depth": 0, "levels": 1, "style": "pair"}, "fmt": "UC", "shape": 12, "kindset": ["tensor", "root"]},
     ]
@@ -1397,7 +1491,8 @@ def gen_wide(tier):
                         kind = kinds[(oi + ti) % len(kinds)]
                         h += 1
                         kw = {"nfollow": 4 if quick else 8, "n": 6}
-                        for k in ("active", "active_all", "fdflt", "fshape", "vals", "twice", "remut", "metrics", "pre"):
+                        for k in ("active", "active_all", "fdflt", "fshape", "vals", "twice", "remut", "metrics", "pre",
+                                  "unordered", "twin"):
                             if k in var:
                                 kw[k] = var[k]
                         if "fmt" in var:
@@ -1526,6 +1621,10 @@ def gen_main(seed, tier):
             kw["twice" if fam == "value" else "remut"] = True
         elif r < 0.52 and d >= 2 and not extra.get("pre") and "unflatten" not in op and "swizzle" not in op:
             kw["pre"] = {"depth": 0, "levels": 1, "style": rng.choice(["tuple", "pair"])}
+        if rng.random() < 0.12 and "pre" not in kw:        # fibers built with ordered=False (optionally unique=False)
+            kw["unordered"] = rng.choice([True, True, "nonunique", "sorted"])
+        if fam == "read" and rng.random() < 0.3:
+            kw["twin"] = True
         if rng.random() < 0.08:                            # multi-digit coordinates: 9 / 10 / 100 order
             def wide(tt, lvl):
                 m = {0: 0, 1: 9, 2: 10, 3: 11, 4: 100, 5: 101, 6: 110}
